@@ -776,6 +776,46 @@ Lemma reset_keeps_sites m :
   mstep m MReset = (ONone, Some (mkM (reset_locals (m_h m)) (m_sites m) (m_orc m))).
 Proof. reflexivity. Qed.
 
+(* ================================================================ `parent:` naming a plain VALUE (round 5)
+
+   get_contextual_state resolves `parent:` with field_vars().get(parent): the parent may be an object row or any
+   value a recipe computes (a field of the row being built, a variable).  The stored parent is compared with `!=`,
+   so the token s_parent stands for the CLASS OF EQUAL parent values (for object rows, which have no __eq__: the
+   row itself), never for the Python object that happens to carry the value.                                    *)
+
+Lemma site_get_other ss s p st :
+  lookupN s ss = Some st -> s_parent st <> p -> site_get ss s p = mkSite p None [] [].
+Proof.
+  intros Hl Hp. unfold site_get. rewrite Hl. destruct (s_parent st =? p) eqn:E; [lia|reflexivity].
+Qed.
+
+(* a successful unique reference leaves the call site's entry under the parent it was evaluated under *)
+Lemma uref_sets_parent h ss orc s p' name glob r ss' orc' :
+  mstep_uref h ss orc s p' name glob = Ok (r, ss', orc') ->
+  exists st', lookupN s ss' = Some st' /\ s_parent st' = p'.
+Proof.
+  intros H. unfold mstep_uref in H.
+  destruct (ref_range_sc h name glob) as [[[[nick table] lo] hi]|e]; [|discriminate]. cbn [bind] in H.
+  set (st := site_get ss s p') in *.
+  destruct (unique_draw (option_map (fun u => with_oracle u (pair_up orc)) (s_ctx st)) lo hi (pair_up orc))
+    as [[d u1]|e]; [|discriminate]. cbn [bind] in H.
+  destruct (resolve_draw h nick table d) as [r0|e]; [|discriminate]. cbn [bind] in H.
+  injection H as _ <- _.
+  eexists. split; [apply lookupN_assign_same|]. destruct (uref_moves (s_ctx st) lo); reflexivity.
+Qed.
+
+Theorem scope_keyed_by_parent_value :
+  (forall ss s p st, lookupN s ss = Some st -> s_parent st = p -> site_get ss s p = st) /\
+  (forall h ss orc s p' name glob r ss' orc' p,
+     mstep_uref h ss orc s p' name glob = Ok (r, ss', orc') -> p <> p' ->
+     site_get ss' s p = mkSite p None [] []).
+Proof.
+  split; [exact site_get_same|].
+  intros h ss orc s p' name glob r ss' orc' p H Hne.
+  destruct (uref_sets_parent _ _ _ _ _ _ _ _ _ _ H) as (st' & Hl & Hp).
+  apply (site_get_other _ _ _ _ Hl). congruence.
+Qed.
+
 (* the outcome at a call site is a function of the row history, of THAT site's entry and of
    the random stream: the entries of other call sites are neither read nor (site_step) written *)
 Theorem site_outcome_local h ss1 ss2 orc s p name glob :
